@@ -213,6 +213,69 @@ def sim_results(fn):
     return out
 
 
+def property_return(fn, label):
+    """ the expression a property returns, locals substituted (straight-line body only) """
+    env = {}; ret = None
+    for st in simple_stmts(fn):
+        if isinstance(st, ast.Assign) and len(st.targets) == 1 and isinstance(st.targets[0], ast.Name):
+            env[st.targets[0].id] = ast.parse(subst(unparse(st.value), {k: unparse(v) for k, v in env.items()}), mode='eval').body
+        elif isinstance(st, ast.Return) and st.value is not None:
+            ret = st.value
+        else:
+            raise ExtractError(f'{label}: unsupported statement {unparse(st)[:80]}')
+    if ret is None:
+        raise ExtractError(f'{label}: no return value')
+    if isinstance(ret, ast.Name) and ret.id in env: ret = env[ret.id]
+    return ret
+
+
+def states_enumeration(src):
+    """ how `Module.states` enumerates the arrays a module holds — the ONLY path by which module-held arrays reach People's
+        registry (`People.add_module`) and their allocation (`Module.init_post`):
+        "all-attributes" = every `ss.Arr` among the attribute values, one entry per OBJECT;
+        "by-name"        = via a mapping keyed by the state name (one entry per NAME: arrays sharing a name are dropped) """
+    def classify(expr, depth=0):
+        text = unparse(expr)
+        if isinstance(expr, ast.ListComp) and len(expr.generators) == 1:
+            g = expr.generators[0]
+            it = unparse(g.iter)
+            conds = [unparse(c) for c in g.ifs]
+            if it in ('self.__dict__.values()', 'vars(self).values()') and unparse(expr.elt) == unparse(g.target) and len(conds) == 1 and re.fullmatch(r'isinstance\(\w+, ss\.Arr\)', conds[0]):
+                return 'all-attributes'
+        if isinstance(expr, ast.Call) and unparse(expr.func) == 'list' and len(expr.args) == 1:
+            inner = unparse(expr.args[0])
+            if 'statesdict' in inner and depth == 0:
+                sd = property_return(src.func(MODF, 'statesdict', 'Module'), 'Module.statesdict')
+                for n in ast.walk(sd):
+                    if isinstance(n, ast.DictComp) and unparse(n.key).endswith('.name'):
+                        return 'by-name'
+        raise ExtractError(f'Module.states: cannot classify the enumeration `{text[:100]}`')
+    return classify(property_return(src.func(MODF, 'states', 'Module'), 'Module.states'))
+
+
+def registration_facts(src):
+    """ People._link_state: the key of the growth registry; People.add_module / Module.init_post: what they do to every enumerated state """
+    ls = src.func(PREL, '_link_state', 'People')
+    keys = [unparse(t.slice) for st in ast.walk(ls) if isinstance(st, ast.Assign) for t in st.targets if isinstance(t, ast.Subscript) and unparse(t.value) == 'self._states']
+    if len(keys) != 1:
+        raise ExtractError(f'People._link_state: expected exactly one write to self._states, found {keys}')
+    def loop_calls(fn, iters, label):
+        out = []
+        for n in ast.walk(fn):
+            if isinstance(n, ast.For) and unparse(n.iter) in iters:
+                var = unparse(n.target)
+                for c in ast.walk(n):
+                    if isinstance(c, ast.Call) and isinstance(c.func, ast.Attribute) and unparse(c.func.value) == var:
+                        g = [unparse(i.test) for i in ast.walk(n) if isinstance(i, ast.If) and any(c is x for x in ast.walk(i))]
+                        out.append((c.func.attr, ' and '.join(g).replace(var, '_')))
+        if not out:
+            raise ExtractError(f'{label}: no loop over {iters} calling a method of the state')
+        return out
+    am = loop_calls(src.func(PREL, 'add_module', 'People'), ('module.states',), 'People.add_module')
+    ip = loop_calls(src.func(MODF, 'init_post', 'Module'), ('self.states',), 'Module.init_post')
+    return keys[0], am, ip
+
+
 @generator('PeoplePlan', [LOOP, PREL, SIMF, MODF])
 def gen(src):
     rows = collect_rows(src.func(LOOP, 'collect_funcs', 'Loop'))
@@ -264,6 +327,8 @@ def gen(src):
     sim_mode, sim_guard = scale_mode(src.func(SIMF, 'finalize', 'Sim'), 'Sim.finalize')
     mod_mode, mod_guard = scale_mode(src.func(MODF, 'finalize_results', 'Module'), 'Module.finalize_results')
     sres = sim_results(src.func(SIMF, 'init_results', 'Sim'))
+    enum_mode = states_enumeration(src)
+    reg_key, add_calls, post_calls = registration_facts(src)
 
     def tbl(rs):
         return ',\n  '.join('(' + ', '.join(lean_str(x) for x in r) + ')' for r in rs)
@@ -290,9 +355,18 @@ def finalizeModule : String × String := ({lean_str(mod_mode)}, {lean_str(mod_gu
 /-- `Sim.init_results`: (name, dtype, scale) of the sim-level series -/
 def simResults : List (String × String × String) := [
   {tbl(sres)}]
+/-- `Module.states`: how the arrays a module holds are enumerated ("all-attributes" = one entry per array object,
+    "by-name" = through a mapping keyed by the state name) -/
+def moduleStatesEnum : String := {lean_str(enum_mode)}
+/-- `People._link_state`: the key under which a state enters the growth registry `_states` -/
+def peopleRegistryKey : String := {lean_str(reg_key)}
+/-- `People.add_module`: (method called on every enumerated state, guard) -/
+def addModuleCalls : List (String × String) := [{', '.join('(' + lean_str(a) + ', ' + lean_str(b) + ')' for a, b in add_calls)}]
+/-- `Module.init_post`: (method called on every enumerated state, guard) -/
+def initPostCalls : List (String × String) := [{', '.join('(' + lean_str(a) + ', ' + lean_str(b) + ')' for a, b in post_calls)}]
 end StarsimModel.Gen
 '''
-    facts = dict(finalize_sim=[sim_mode, sim_guard], finalize_module=[mod_mode, mod_guard], sim_results=[list(r) for r in sres],
+    facts = dict(states_enum=enum_mode, registry_key=reg_key, add_module_calls=[list(c) for c in add_calls], init_post_calls=[list(c) for c in post_calls], finalize_sim=[sim_mode, sim_guard], finalize_module=[mod_mode, mod_guard], sim_results=[list(r) for r in sres],
                  rows=[list(r) for r in rows], request_death=[rq_t, rq_v], step_die=[sd_sel, sd_write, sd_ret],
                  update_results=ur_assign, finish_calls=fs_calls, life_writes=[list(w) for w in writes])
     return body, facts
